@@ -323,6 +323,9 @@ def build_layout(n, pattern, classical, layout, kinds, perm=None, wide=False, bi
         pqm.initialize(circ, pat, q_memory, q_aux, classical)
     elif callform == "default-flag" and not classical:
         pqm.initialize(circ, pat, q_memory, q_aux)
+    elif callform in ("npbool-flag", "int-flag"):      # a truthy / falsy flag that is not the singleton True / False
+        import numpy as _np
+        pqm.initialize(circ, pat, q_memory, q_aux, is_classical_pattern=(_np.bool_ if callform == "npbool-flag" else int)(classical))
     else:
         pqm.initialize(circ, pat, q_memory, q_aux, is_classical_pattern=classical)
     wires = dict(mem=[idx(q) for q in m_q], pat=p_wires, aux=idx(regs["a"][0]),
@@ -460,6 +463,15 @@ def _diversity_cases(ctx):
                 for kinds in (("qubits", "qubits", "qubits"), ("ints", "ints", "ints"), ("qubits", "ints", "register")):
                     layout_case(ctx, "sub-lists of wider registers", n, rnd_pattern(n), classical, rand_state(ctx, 2 ** n, "haar"),
                                 layout, kinds, perm, wide=True)
+    # ---- type of the flag: numpy.bool_ (what np.all / a comparison returns) and int 1 / 0, both branches, memory not first
+    for n in (1, 2, 3):
+        for fi, flagform in enumerate(("npbool-flag", "int-flag")):
+            for classical in (True, False):
+                lays = LAYOUTS_C if classical else LAYOUTS_Q
+                for li in range(2):
+                    layout = lays[(fi + n + 2 * li + 1) % len(lays)]
+                    layout_case(ctx, "type of the flag", n, rnd_pattern(n), classical, rand_state(ctx, 2 ** n, "haar"), layout,
+                                ("register", "register", "register"), callform=flagform)
     # ---- bit types of the classical pattern, on a layout where the memory is not first
     for n in (1, 2, 3):
         for bi, bitform in enumerate(BIT_FORMS):
